@@ -731,9 +731,34 @@ def gen_net():
     write_if_changed(os.path.join(OUT, "Net.lean"), "\n".join(L) + "\n")
 
 
+def gen_ra():
+    """how `serialise_router_advertisement` narrows the option lengths of the three options whose size the configuration decides"""
+    ic = strip_comments(read(os.path.join(CORE, "radv/icmppkt.rs")))
+    body = fn_body(ic, "serialise_router_advertisement") or ""
+    m = re.search(r"for chunk in servers\.chunks\(([0-9]+)\) \{\s*v\.serialise\(RDNSS\.0\);\s*v\.serialise\(u8::try_from\(1 \+ chunk\.len\(\) \* 2\)\.unwrap\(\)\);", body)
+    old_rdnss = bool(re.search(r"v\.serialise\(RDNSS\.0\);\s*v\.serialise\(u8::try_from\(1 \+ servers\.len\(\) \* 2\)\.unwrap\(\)\);", body))
+    chunk = int(m.group(1)) if m else (0 if old_rdnss else None)
+    record("ra.rdnssChunk", chunk, "radv/icmppkt.rs serialise_router_advertisement (RDNSS)", ok=chunk is not None)
+    d_new = bool(re.search(r"let units = match u8::try_from\(1 \+ dnssl\.v\.len\(\) / 8\) \{\s*Ok\(units\) => units,\s*Err\(_\) => \{.*?continue;\s*\}\s*\};\s*v\.serialise\(DNSSL\.0\);\s*v\.serialise\(units\);", body, re.S))
+    d_old = bool(re.search(r"v\.serialise\(DNSSL\.0\);\s*v\.serialise\(1 \+ \(dnssl\.v\.len\(\) / 8\) as u8\);", body))
+    record("ra.dnsslLengthChecked", d_new, "radv/icmppkt.rs serialise_router_advertisement (DNSSL)", ok=d_new != d_old)
+    c_new = bool(re.search(r"let units = match u8::try_from\(1 \+ b\.len\(\) / 8\) \{\s*Ok\(units\) if !url\.contains\('\\0'\) => units,\s*_ => \{.*?continue;\s*\}\s*\};\s*v\.serialise\(CAPTIVE_PORTAL\.0\);\s*v\.serialise\(units\);", body, re.S))
+    c_old = bool(re.search(r"v\.serialise\(CAPTIVE_PORTAL\.0\);\s*v\.serialise\(\(1 \+ b\.len\(\) / 8\) as u8\);", body))
+    record("ra.captiveLengthChecked", c_new, "radv/icmppkt.rs serialise_router_advertisement (captive portal)", ok=c_new != c_old)
+    L = ["-- generated by tools/extract.py; do not edit", "namespace Erbium.Generated.Ra",
+         "/-- `servers.chunks(N)`: addresses per RDNSS option (0 = the source writes one option, whatever the number) -/",
+         "def rdnssChunk : Nat := %s" % nat(chunk),
+         "/-- the DNSSL option is left out (with a warning) when its length does not fit the length octet, instead of `as u8` -/",
+         "def dnsslLengthChecked : Bool := %s" % boolean(d_new),
+         "/-- the captive-portal option is left out when its length does not fit or the URL contains a NUL, instead of `as u8` -/",
+         "def captiveLengthChecked : Bool := %s" % boolean(c_new),
+         "end Erbium.Generated.Ra"]
+    write_if_changed(os.path.join(OUT, "Ra.lean"), "\n".join(L) + "\n")
+
+
 def main():
     os.makedirs(OUT, exist_ok=True)
-    gens = [gen_dhcp, gen_pool, gen_acl, gen_dns, gen_pkt, gen_net]
+    gens = [gen_dhcp, gen_pool, gen_acl, gen_dns, gen_pkt, gen_net, gen_ra]
     for g in gens:
         try:
             g()
